@@ -1035,7 +1035,27 @@ fn run_and_judge(desc: &CaseDesc, honest: Option<&Run>, l: &mut Local) -> Run {
         for (i, st) in run.steps.iter().enumerate().skip(main_idx + 1) {
             let Some(hst) = h.steps.get(i) else { continue };
             if i == last && st.query == run.steps[main_idx].query {
-                // the repeated main query is about the hostile zone itself: provenance only
+                // the repeated main query is about the hostile zone itself: provenance, and the
+                // warm answer holds nothing the cold answer of the same query did not hold
+                if let (Outcome::Ok { .. }, Outcome::Ok { .. }) = (&st.outcome, &run.steps[main_idx].outcome) {
+                    let cold: BTreeSet<Rec> = run.steps[main_idx].outcome.returned().into_iter().map(|(_, r)| rec_of(r)).collect();
+                    let extra: Vec<Rec> = st.outcome.returned().into_iter().map(|(_, r)| rec_of(r)).filter(|r| !cold.contains(r)).collect();
+                    if !extra.is_empty() && !attacker_contacted {
+                        l.violation(
+                            "warm-answer-not-a-subset-of-the-cold-answer",
+                            &format!("the repeated query {} {} returns {:?}, which the first (cold) answer did not contain", st.query.0, st.query.1, extra),
+                            &wit,
+                        );
+                    } else {
+                        l.outcome("warm-answer-subset-of-cold");
+                    }
+                }
+                continue;
+            }
+            if i > main_idx + followups(hz).len() {
+                // a second-step query for something the first resolution touched: it may be an
+                // alias into, or a name server of, the hostile zone - provenance only
+                l.outcome("second-step-query-for-a-touched-name");
                 continue;
             }
             let qz = inet.owning_zone(&n(&st.query.0));
@@ -1337,8 +1357,8 @@ fn main() {
         "(A) zone graphs root/t./o./l.t./v.o. with every combination of NS styles (t.: in-zone+glue, in-zone-no-glue, sibling-glueless, in-child+glue; o.: in-zone+glue, sibling-glueless; \
          l.t.: in-zone+glue, no-glue, sibling-tld, sibling-leaf, parent-zone; v.o.: in-zone+glue, sibling-tld, sibling-leaf; 120 graphs incl. all mutual glueless cycles) x 1 (quick) / 1-2 (thorough) servers per zone \
          x 12 queries (A, AAAA, NS, SOA, ANY, CNAME, DS; existing, missing, alias names) x limits {(4,4),(8,8),(24,24)}, honest; (B) every graph (quick: the plain graph and the graphs one NS style away from it) x hostile zone in {t., o., l.t., v.o.} (all its servers) x injection kind (12: victim A, victim-zone NS+glue, victim-parent NS+glue, root NS+glue, \
-         CNAME->victim + victim A, in-bailiwick A at a denied answer address, in-bailiwick NS + glue at a denied server address, sibling A, victim NS + victim glue, NS for the hostile zone's own names naming a victim-zone host + forged glue for it, victim CNAME, victim-zone SOA; plus the systematic kinds record type {A, NS+glue, SOA} x OWNER {inside the hostile zone, hostile apex, parent apex, grandparent apex (= every strict ancestor up to the root), sibling, victim apex, unrelated TLD}) x response mode {append; on graphs near the plain one (thorough: all single-server graphs) also: genuine records dropped with NOERROR / with NXDOMAIN, AA bit flipped, genuine records re-owned to the victim} x section {answer, authority, additional} added to EVERY response \
-         x main query (cold, and - when the hostile zone is the one holding the queried name - also after a warm-up query for another name of that zone, i.e. with every ancestor's pool already in the name-server cache), followed on the same recursor by 3-4 follow-up queries for names outside the hostile subtree; thorough adds all unordered pairs of injections on the plain graph and on every graph that differs from it in at most one zone's NS style; \
+         CNAME->victim + victim A, in-bailiwick A at a denied answer address, in-bailiwick NS + glue at a denied server address, sibling A, victim NS + victim glue, NS for the hostile zone's own names naming a victim-zone host + forged glue for it, victim CNAME, victim-zone SOA; plus the systematic kinds record type {A, NS+glue, SOA} x OWNER {inside the hostile zone, hostile apex, parent apex, grandparent apex (= every strict ancestor up to the root), sibling, victim apex, unrelated TLD}) x response mode {append; on the plain graph (thorough: all single-server graphs) also: genuine records dropped with NOERROR / with NXDOMAIN, AA bit flipped, genuine records re-owned to the victim} x section {answer, authority, additional} added to EVERY response \
+         x main query (cold, and - when the hostile zone is the one holding the queried name - also after a warm-up query for another name of that zone, i.e. with every ancestor's pool already in the name-server cache), followed on the same recursor by 3-4 follow-up queries for names outside the hostile subtree, by a SECOND-STEP query for everything the first resolution touched internally (every (name, type in A/AAAA/NS) it asked upstream and the address of every NS host name of the zones it asked: glueless NS names, zone cuts, alias targets), and by the first query again (warm answer must be a subset of the cold one); thorough adds all unordered pairs of injections on the plain graph and on every graph that differs from it in at most one zone's NS style; \
          (F) every filter configuration the builder accepts out of deny_server {none, 6.6.7.0/24, 0.0.0.0/0} x allow_server {none, 6.6.7.1/32, 11.0.0.0/8} x deny_answers {none, 6.6.8.0/24, 0.0.0.0/0} x allow_answers {none, 6.6.8.1/32, 12/8+11/8} (quick: one filter at its default; thorough: the full product, 49) x hostile zone {ROOT, t., l.t.} x filter-relevant injections x 5 queries (each asked twice), judged against the documented deny/allow table; \
          (C) lame kinds {REFUSED, upward referral, self referral, empty NOERROR, timeout} x zone x {1 server, 2 servers both lame, 2 servers first lame}; \
          (D) CNAME chains 1..70 (in-zone / cross-zone, server chases in-zone or not), CNAME loops 1..3, NS-for-NS chains 1..30, glueless cycles 1..8 (1 NS name) / 1..6 (2 NS names), delegation depth 1..40, each x limits; \
@@ -1427,12 +1447,46 @@ fn main() {
     // ---------------- (B) hostile zones
     // honest reference runs with follow-ups, per (graph, hostile zone (-> follow-up list), query)
     let inj_limits = (8u8, 8u8);
+    // class (d) second step: what did the first resolution touch internally? One honest run of
+    // every (graph, main query) collects every (name, type) that was asked upstream and every NS
+    // host name of the zones whose servers were asked; each of them becomes a follow-up query on
+    // the same recursor (the NS names' addresses, the zone cuts' NS sets, alias targets, ...).
+    let touch_keys: Vec<(usize, usize)> = (0..specs.len()).flat_map(|si| (0..queries.len()).map(move |qi| (si, qi))).collect();
+    let touched: Vec<Mutex<Vec<(String, String)>>> = touch_keys.iter().map(|_| Mutex::new(vec![])).collect();
+    ctx.par_run(touch_keys.len() as u64, 8, |i, l| {
+        let (si, qi) = touch_keys[i as usize];
+        let s = &specs[si];
+        if !thorough && s.style.iter().filter(|x| **x != 0).count() > 1 {
+            return;
+        }
+        l.eval();
+        let q = &queries[qi];
+        let d = CaseDesc { spec: s.clone(), limits: inj_limits, hostile: None, inj: vec![], queries: vec![(q.0.to_string(), q.1.to_string())], case_rand: false, warm: false, mode: 0, filters: DEFAULT_FILTERS };
+        let inet = d.internet();
+        let run = execute_caught(Arc::new(d.internet()), d.limits, d.case_rand, d.filters, &d.parsed_queries());
+        let mut set: BTreeSet<(String, String)> = BTreeSet::new();
+        for e in &run.steps[0].log {
+            if ["A", "AAAA", "NS"].contains(&e.qtype.as_str()) {
+                set.insert((e.qname.clone(), e.qtype.clone()));
+            }
+            if let Some(srv) = inet.server_by_ip(e.ip) {
+                for z in &inet.servers[srv].zones {
+                    for h in &inet.zones[*z].ns_names {
+                        set.insert((h.to_ascii(), "A".to_string()));
+                    }
+                }
+            }
+        }
+        set.remove(&(q.0.to_string(), q.1.to_string()));
+        *touched[i as usize].lock().unwrap() = set.into_iter().collect();
+    });
+    let touched: Vec<Vec<(String, String)>> = touched.into_iter().map(|m| m.into_inner().unwrap()).collect();
     let mut refs: Vec<(CaseDesc, usize)> = vec![];
-    for s in &specs {
+    for (si, s) in specs.iter().enumerate() {
         // quick: the query-type extension only on the graphs near the plain one
         let nq = if thorough || (s.nserv == 1 && s.style.iter().filter(|x| **x != 0).count() <= 1) { queries.len() } else { 8 };
         for hz in [T, O, LT, VO] {
-            for q in queries.iter().take(nq) {
+            for (qi, q) in queries.iter().enumerate().take(nq) {
                 // the zone the main query's name lives in (its first label stripped, unless it asks
                 // for the NS set of the zone itself)
                 let qzone = if q.1 == "NS" || q.1 == "SOA" { q.0.to_string() } else { q.0.split_once('.').map(|x| x.1.to_string()).unwrap_or_default() };
@@ -1448,6 +1502,11 @@ fn main() {
                     }
                     qs.push((q.0.to_string(), q.1.to_string()));
                     qs.extend(followups(hz));
+                    for t in &touched[si * queries.len() + qi] {
+                        if !qs.contains(t) {
+                            qs.push(t.clone());
+                        }
+                    }
                     // and the main query once more: what the first resolution left in the caches
                     qs.push((q.0.to_string(), q.1.to_string()));
                     refs.push((CaseDesc { spec: s.clone(), limits: inj_limits, hostile: None, inj: vec![], queries: qs, case_rand: false, warm, mode: 0, filters: DEFAULT_FILTERS }, hz));
@@ -1499,7 +1558,8 @@ fn main() {
             for s in 0..SECTIONS.len() {
                 jobs.push((ri, vec![(k, s)], 0));
                 // the hostile servers ALTER their genuine response instead of only adding to it
-                if d.spec.nserv == 1 && (thorough || near_plain) {
+                // (quick: on the plain graph)
+                if d.spec.nserv == 1 && (thorough || deviations == 0) {
                     for mode in 1..=3 {
                         // (rtype x owner) kinds: the two "genuine records dropped" modes
                         if k >= FIXED_KINDS && mode == 3 {
@@ -1694,7 +1754,7 @@ fn main() {
         ctx.set("stub_measured", Value::Object(stub));
     });
 
-    for class in ["filter-configuration-case", "hostile-root-case", "mode:append+aa-flipped", "mode:reown-genuine-records-to-victim", "warm-cache-main-query", "hostile-server-contacted", "followup-equals-honest", "plateau-checked", "selftest:replayed-identically", "stub:error", "stub:answer", "main:answer", "main:nxdomain", "main:nodata"] {
+    for class in ["second-step-query-for-a-touched-name", "warm-answer-subset-of-cold", "filter-configuration-case", "hostile-root-case", "mode:append+aa-flipped", "mode:reown-genuine-records-to-victim", "warm-cache-main-query", "hostile-server-contacted", "followup-equals-honest", "plateau-checked", "selftest:replayed-identically", "stub:error", "stub:answer", "main:answer", "main:nxdomain", "main:nodata"] {
         if ctx.outcome_count(class) == 0 {
             ctx.machinery_failure(&format!("vacuous run: outcome class '{class}' was never exercised"));
         }
